@@ -184,6 +184,19 @@ func (m *M) obs() []kv {
 		enc := e.Encode()
 		w, sq := m.witnessFor(enc)
 		es[i] = []kv{{"enc", enc}, {"id", e.IsIdentity()}, {"y", w}, {"sq", sq}}
+		if secp256k1.VerifAccessor {
+			// the stored coordinates themselves, and (untrusted) what they are the coordinates of
+			xl, yl, zl := secp256k1.VerifLimbs(e)
+			sx, sy, sz := limbsToBig(*xl), limbsToBig(*yl), limbsToBig(*zl)
+			ax, ay := []byte{}, []byte{}
+			if zv := mulmod(new(big.Int).Mod(sz, bigP), rInvP, bigP); zv.Sign() != 0 {
+				zi := new(big.Int).ModInverse(zv, bigP)
+				ax = be32(mulmod(mulmod(new(big.Int).Mod(sx, bigP), rInvP, bigP), zi, bigP))
+				ay = be32(mulmod(mulmod(new(big.Int).Mod(sy, bigP), rInvP, bigP), zi, bigP))
+			}
+			es[i] = []kv{{"enc", enc}, {"id", e.IsIdentity()}, {"y", w}, {"sq", sq},
+				{"sx", be32(sx)}, {"sy", be32(sy)}, {"sz", be32(sz)}, {"ax", ax}, {"ay", ay}}
+		}
 	}
 	ss := make([]any, len(m.S))
 	seq := make([]int, len(m.S))
